@@ -175,7 +175,8 @@ def run(ctx):
                          (b"/mail/box.mbox|/MBOX-MESSAGE/9999\r\n", False), (b"/README|/MBOX-MESSAGE/1\r\n", False),
                          (b"/nonexist|/MBOX-MESSAGE/1\r\n", False), (b"/maild|/MAILDIR-MESSAGE/99\r\n", False), (b"/maild/new\r\n", False),
                          (b"/maild\r\n", False), (b"/mail/noheaders.mbox\r\n", False), (b"/menu.gophermap\t+\r\n", False),
-                         (b"gemini://h/a%0d%0ab\r\n", True), (b"h /a%0d%0a2%20text/gemini%0d%0ainjected 0\r\n", False), (b"\r\n", False), (b"", False)]
+                         (b"gemini://h/a%0d%0ab\r\n", True), (b"gemini://h/a%0Ab\r\n", True), (b"gemini://h/a%0Db%0A%0Ac\r\n", True), (b"h /a%0Ab 0\r\n", False),
+                         (b"h /a%0D2%20text/gemini%0Dinjected 0\r\n", False), (b"h /a%0d%0a2%20text/gemini%0d%0ainjected 0\r\n", False), (b"\r\n", False), (b"", False)]
                 requests = fixed + requests
                 seq_out = []
                 for rq, tls in requests:
@@ -219,7 +220,7 @@ def run(ctx):
                             k = ln.find("EXCEPTION FileNotFound: ")
                             if k >= 0:
                                 m = ln[k + len("EXCEPTION FileNotFound: "):]
-                        if m is not None and "\n" not in m:
+                        if m is not None and ("\n" not in m or proto in ("gemini", "spartan")):
                             model_lines.append("\t".join(["respond", proto, "F", "notfound", enc_str(m), "!", "!"]))
                             checks.append((dict(inp, proto=proto), r.out))
                 # ---- history independence: each request again on a fresh copy -------------
